@@ -462,7 +462,8 @@ func handlerErrSites(c *Ctx, handler *ssa.Function, isSrc func(*ssa.Function) bo
 // errEndsRequest: the error result of `call` (in f, a function of the handler's scope) makes the handler return an
 // error: in f the non-nil error only reaches error returns (errPropagated), and if f is not the handler itself, f's own
 // error result is treated the same way at every place f is called from, up to the handler. A function that is started
-// with go/defer, or is not called from the scope at all, cannot hand its error to the handler's return.
+// with go/defer, or is not called from the scope at all, cannot hand its error to the handler's return; a function that
+// is handed to a helper which calls it (the callback of a map helper) hands it on through that helper (errThroughCallback).
 func errEndsRequest(c *Ctx, handler *ssa.Function, scope []*ssa.Function, f *ssa.Function, call *ssa.Call, depth int) errOutcome {
 	sig := call.Call.Signature().Results()
 	out := c.fc.errPropagated(f, call, resultValue(call, sig.Len()-1))
@@ -499,6 +500,14 @@ func errEndsRequest(c *Ctx, handler *ssa.Function, scope []*ssa.Function, f *ssa
 	}
 	if worst != nil {
 		return *worst
+	}
+	// f may (also) be the callback of a map helper — the body of the handler's loop as a function literal: its error
+	// then has to come out of the helper that calls it, and that helper's error has to end the request (rules_ag44.go)
+	if o, isCb := errThroughCallback(c, handler, scope, f, call, depth); isCb {
+		if !o.ok {
+			return o
+		}
+		return errOutcome{true, out.msg + "; " + o.msg, call, nil}
 	}
 	if n == 0 {
 		return errOutcome{false, safeFname(f) + " is not called directly from the handler's code: its error is not known to end the request", call, nil}
